@@ -76,7 +76,7 @@ LEVELS = {
             "components": {"real": ["pkg/core purge (build, resume, delete-unused), upload/download/delete/squash", "pebble KV", "pkg/cafs"], "stub": STUB},
             "assumptions": ["all clients share one clock"]},
     "C14": {"level": "exploration", "rule": RULE,
-            "text": "the fault-free configuration of the C13 world: the union of the uploaded index chunks equals exactly the set of roots and leaves referenced by the scanned bundles of all contexts, each key once, for chunk sizes 1..500000 and with stalled calls making the 5-minute uploader fire mid-scan; after delete-unused every blob older than the index and unreferenced is gone and every other blob is kept, and all bundles download. Lock: 2..5 concurrent PurgeLock under sampled interleavings (optionally one forced): exactly one succeeds, none while held, exactly one after PurgeUnlock",
+            "text": "the fault-free configuration of the C13 world: the union of the uploaded index chunks equals exactly the set of roots and leaves referenced by the scanned bundles of all contexts, each key once, for chunk sizes 1..500000 and with stalled calls making the 5-minute uploader fire mid-scan; after delete-unused every blob older than the index and unreferenced is gone and every other blob is kept, and all bundles download. A second scenario runs two or three whole purge cycles (build, delete-unused) with uploads and bundle deletions in between, every command in the same local work directory (datamon's default) or in fresh ones: after each cycle the index is exact, exactly the unreferenced old blobs are gone, every bundle downloads. Lock: 2..5 concurrent PurgeLock under sampled interleavings (optionally one forced): exactly one succeeds, none while held, exactly one after PurgeUnlock",
             "note": "trusts simstore timestamps (object Updated time = simulated clock)",
             "components": {"real": ["pkg/core purge + lock", "pebble KV"], "stub": STUB},
             "assumptions": []},
